@@ -33,6 +33,7 @@ POOL = [",", "=", "unsafe", "*", "true", "false", '""', '"x y"', '"0"', '"-"', "
         "T: Clone", "T: ?Sized", "'a: 'b", "for<'x> &'x T: Clone", "|", "+", "-", "/", "%", "^", "@", "$", "~", ";",
         ":", ".", "=>", "->", "async", "await", "mut", "ref", "box", "union", "macro_rules", "r#unsafe", "\\u{0}",
         # identifiers and literals outside ASCII (byte offsets into their printed form are not character offsets)
+        "_Nothing", "_Nothing(x)", "Nothing", "__", "Trait", "Self",
         "Имя", "名前", "αβ", "é", '"Имя"', '"名前: Clone"', "'é'", '"é"', "Ж", "r#Имя"]
 POOL = [p for p in POOL if p != "\\u{0}"]
 GROUPS = [("(", ")"), ("[", "]"), ("{", "}")]
@@ -186,6 +187,11 @@ def mutate_text(rng, text):
 
 
 HAND = [
+    "#[derive(Educe)] #[educe(_Nothing)] struct S { a: u8 }",
+    "#[derive(Educe)] #[educe(Debug, _Nothing)] struct S { a: u8 }",
+    "#[derive(Educe)] #[educe(_Nothing(ignore))] enum E { A }",
+    "#[derive(Educe)] #[educe(_Nothing = 1)] union U { a: u8 }",
+    "#[derive(Educe)] #[educe(Debug)] struct S { #[educe(_Nothing)] a: u8 }",
     "#[derive(Educe)] #[educe(Hash())] union U { a: u8 }",
     "#[derive(Educe)] #[educe(PartialEq())] union U { a: u8 }",
     "#[derive(Educe)] #[educe(Debug())] union U { a: u8 }",
@@ -398,6 +404,15 @@ def rank_edge_inputs():
                     out.append(("r%d" % (n + 2), "#[derive(Educe)] #[educe(%s%s)] enum E { V(%su8, %su8, %su8), W { %sx: u8, %sy: u8, %sz: u8 } }" %
                                 (extra, t, attrs[0], attrs[1], attrs[2], attrs[0], attrs[1], attrs[2])))
                     n += 3
+    # ranks that do not fit isize, in every spelling, alone and followed by more tokens (a negative literal is one token
+    # only when it is the last one)
+    for t, extra in (("Ord", "PartialEq, Eq, PartialOrd, "), ("PartialOrd", "PartialEq, ")):
+        for v in ("-9223372036854775809", "9223372036854775808", "-170141183460469231731687303715884105729", "-0", "- 1", "--1", "-1u8", "-1.5"):
+            for spell in ("rank = %s", "rank(%s)", "rank = \"%s\"", "rank = %s,", "rank = %s, method = f", "rank = %s, ignore = false",
+                          "method = f, rank = %s"):
+                out.append(("r%d" % n, "#[derive(Educe)] #[educe(%s%s)] struct S { #[educe(%s(%s))] a: u8, b: u8 }" % (extra, t, t, spell % v)))
+                out.append(("r%d" % (n + 1), "#[derive(Educe)] #[educe(%s%s)] enum E { V(#[educe(%s(%s))] u8, u8), W }" % (extra, t, t, spell % v)))
+                n += 2
     return out
 
 
